@@ -15,7 +15,7 @@
 (* are done.  Deferred entries are all "top" (no selected directory above them), hence never below a    *)
 (* directory that is renamed later.                                                                      *)
 From Tempren Require Import Base.Str Py.PathLib FS.Model FS.Lemmas FS.PlainPaths FS.WfCheck.
-From Tempren Require Import Pipe.Pipeline Pipe.DrySim Pipe.DryEqualsReal Pipe.DryEqualsRealCheck Pipe.DryEqualsRealDir.
+From Tempren Require Import Pipe.Pipeline Pipe.DestParent Pipe.DrySim Pipe.DryEqualsReal Pipe.DryEqualsRealCheck Pipe.DryEqualsRealDir.
 Open Scope N_scope.
 
 (* ---------- the statement's vocabulary --------------------------------------------------------- *)
@@ -88,6 +88,10 @@ Definition fp_head (c : cfg) (f : pfile) (r : rendered) (w : world) (cwd : rpath
            | None => HStop w cwd1 ExOther
            | Some false => HStop w cwd1 ExInvalidDest
            | Some true =>
+             match dest_parent_test (c_var c) (w_fs w) f np with
+             | None => HStop w cwd1 ExOther
+             | Some false => HStop w cwd1 ExInvalidDest
+             | Some true =>
              match parents_contained (w_fs w) f np with
              | None => HStop w cwd1 ExOther
              | Some false => HStop w cwd1 ExInvalidDest
@@ -101,6 +105,7 @@ Definition fp_head (c : cfg) (f : pfile) (r : rendered) (w : world) (cwd : rpath
                  | (w1, Some e) => if is_file_exists e then HCont w1 cwd1 (Some np) else HStop w1 cwd1 e
                  end
                end
+             end
              end
            end
     end
@@ -120,6 +125,7 @@ Proof.
   destruct (generate (c_mode c) f r) as [np|e]; [|reflexivity].
   destruct (ppath_eqb np (pf_rel f)); [reflexivity|].
   destruct (contained (c_var c) (w_fs w) f np) as [[|]|]; try reflexivity.
+  destruct (dest_parent_test (c_var c) (w_fs w) f np) as [[|]|]; try reflexivity.
   destruct (parents_contained (w_fs w) f np) as [[|]|]; try reflexivity.
   destruct (source_contained (w_fs w) f) as [[|]|]; try reflexivity.
   destruct (renamer c w cwd1 (pf_rel f) np false) as [w1 [e|]]; [|reflexivity].
@@ -254,6 +260,8 @@ Proof.
     rewrite (contained_dd s0 f np _ W0 Pdd), (contained_dd (w_fs wr) f np _ Wr Pdd').
     destruct (is_prefix_path (pf_dir f) (removelast (pf_dir f ++ removelast (pp_parts (pf_rel f))))).
     2:{ split; [reflexivity | split; [reflexivity | assumption]]. }
+    rewrite (dest_parent_test_generated fixed _ s0 f _ np G eq_refl (source_contained_rel s0 f W0 Ps)),
+            (dest_parent_test_generated fixed _ (w_fs wr) f _ np G eq_refl (source_contained_rel (w_fs wr) f Wr Ps')).
     rewrite (parents_contained_dd s0 f np _ W0 Pdd), (parents_contained_dd (w_fs wr) f np _ Wr Pdd').
     rewrite (source_contained_rel s0 f W0 Ps), (source_contained_rel (w_fs wr) f Wr Ps').
     destruct (simd_renamer_dd s0 st answers anc W0 anc_up wd wr (pf_dir f) (pf_rel f) np _ HS Pdd Ha) as [Xd Xr].
@@ -276,6 +284,8 @@ Proof.
     rewrite (contained_rel (w_fs wr) f np Wr Pd' NLr).
     destruct (is_prefix_path (pf_dir f) (pf_dir f ++ pp_parts np)).
     2:{ split; [reflexivity | split; [reflexivity | assumption]]. }
+    rewrite (dest_parent_test_generated fixed _ s0 f _ np G eq_refl (source_contained_rel s0 f W0 Ps)),
+            (dest_parent_test_generated fixed _ (w_fs wr) f _ np G eq_refl (source_contained_rel (w_fs wr) f Wr Ps')).
     rewrite (parents_contained_rel s0 f np W0 Pd), (parents_contained_rel (w_fs wr) f np Wr Pd').
     rewrite (source_contained_rel s0 f W0 Ps), (source_contained_rel (w_fs wr) f Wr Ps').
     destruct (renamer (dD st answers) wd (pf_dir f) (pf_rel f) np false) as [wd1 ed1] eqn:Rd.
